@@ -4,7 +4,7 @@
    Model/Digest.v (digest.go + an independent transcription of RFC 7616 section 3.4).
    The hash function is a universally quantified variable H everywhere. *)
 From Coq Require Import Permutation.
-From ReqV Require Import Model.ProxyAuth Proofs.ProxyAuthProofs.
+From ReqV Require Import Model.ProxyAuth Proofs.ProxyAuthProofs Model.AuthReexec Proofs.AuthReexecProofs.
 From ReqV Require Import Lib.Bytes Model.Base64 Model.AuthParam Model.Digest
      Proofs.Base64Proofs Proofs.AuthParamProofs Proofs.DigestProofs Proofs.ChallengeTextProofs
      Proofs.DigestVerifyProofs.
@@ -69,33 +69,74 @@ Print Assumptions C20_proxy_auth_recovers.
    the credentials: two connect methods with one key send the same Proxy-Authorization *)
 Theorem C20_pool_key_determines_credentials : forall p q hs ht t t',
   host_ok p -> host_ok q ->
-  conn_key_of p hs t = conn_key_of q ht t' -> p = q /\ proxy_auth p = proxy_auth q.
+  conn_key_of p hs t = conn_key_of q ht t' -> p = q /\ hs = ht /\ proxy_auth p = proxy_auth q.
 Proof. exact key_determines_auth. Qed.
 Print Assumptions C20_pool_key_determines_credentials.
 
 (* carried state: idle proxy connections remember the header they were dialled with.  On one
-   client, over any sequence of proxy URLs (password rotations included) and http / https
-   targets, everything the proxy receives for request i is the credential of request i's proxy
-   URL, and a plain-http request carries exactly that one value *)
-Theorem C20_proxy_sequence_sends_current : forall rs,
+   client, over any sequence of proxy URLs (password rotations, URLs without userinfo) and
+   http / https targets, everything the proxy receives for request i is what request i's proxy
+   URL prescribes - for a CONNECT the URL's credentials, else the Proxy-Authorization the caller
+   put into the static ProxyConnectHeader ([static]), which is never modified - and a plain-http
+   request carries exactly the URL's *)
+Theorem C20_proxy_sequence_sends_current : forall static rs,
   Forall (fun r : proxy_req => host_ok (fst (fst r))) rs ->
   Forall2 (fun (r : proxy_req) seen =>
-             (forall h, In h seen -> h = proxy_auth (fst (fst r))) /\
+             (forall h, In h seen -> h = sent_auth static (snd (fst r)) (fst (fst r))) /\
              (snd (fst r) = false -> seen = [proxy_auth (fst (fst r))]))
-          rs (proxy_run [] rs).
-Proof. intros rs H. exact (proxy_run_current rs [] pool_ok_nil H). Qed.
+          rs (proxy_run static [] rs).
+Proof. intros static rs H. exact (proxy_run_current static rs [] (pool_ok_nil static) H). Qed.
 Print Assumptions C20_proxy_sequence_sends_current.
+
+(* a proxy whose URL carries no credentials receives none, whatever proxies were used before *)
+Theorem C20_proxy_without_userinfo_gets_nothing : forall rs,
+  Forall (fun r : proxy_req => host_ok (fst (fst r))) rs ->
+  Forall2 (fun (r : proxy_req) seen => pu_user (fst (fst r)) = None -> forall h, In h seen -> h = None)
+          rs (proxy_run None [] rs).
+Proof. exact no_userinfo_no_credentials. Qed.
+Print Assumptions C20_proxy_without_userinfo_gets_nothing.
 
 (* a key built from URL.Redacted() (password masked) breaks exactly this: the rotated password
    is not transmitted *)
 Theorem C20_redacted_key_refuted :
   let a := mkPU (Some (bs "alice", Some (bs "first-secret"))) (bs "127.0.0.1:3128") in
   let b := mkPU (Some (bs "alice", Some (bs "second-secret"))) (bs "127.0.0.1:3128") in
-  proxy_run_with pu_redacted [] [(a, false, []); (b, false, [])] = [[proxy_auth a]; [proxy_auth a]] /\
+  proxy_run_with pu_redacted None [] [(a, false, []); (b, false, [])] = [[proxy_auth a]; [proxy_auth a]] /\
   proxy_auth a <> proxy_auth b /\
-  proxy_run [] [(a, false, []); (b, false, [])] = [[proxy_auth a]; [proxy_auth b]].
+  proxy_run None [] [(a, false, []); (b, false, [])] = [[proxy_auth a]; [proxy_auth b]].
 Proof. exact redacted_key_refuted. Qed.
 Print Assumptions C20_redacted_key_refuted.
+
+(* writing the URL's credentials into the shared static CONNECT header (no Clone) leaks them to
+   a later proxy that was given none *)
+Theorem C20_shared_connect_header_refuted :
+  let a := mkPU (Some (bs "alice", Some (bs "secret"))) (bs "127.0.0.1:3128") in
+  let b := mkPU None (bs "127.0.0.1:3129") in
+  let rs := [(a, true, bs "origin:443"); (b, true, bs "origin:443")] in
+  proxy_run None [] rs = [[proxy_auth a]; [None]] /\
+  proxy_run_shared None [] rs = [[proxy_auth a]; [proxy_auth a]].
+Proof. exact shared_connect_header_refuted. Qed.
+Print Assumptions C20_shared_connect_header_refuted.
+
+(* ----- one Request executed again, credential setters in between ----- *)
+
+(* for ALL sequences of Client.SetCommonBasicAuth / SetCommonBearerAuthToken, Request.SetBasicAuth /
+   SetBearerAuthToken and executions of one Request: every execution transmits the credentials
+   given - the latest set on the request if any ever was, otherwise the client's current ones
+   (merge bookkeeping of parseRequestHeader / unmergeClientSettings by slice identity) *)
+Theorem C20_reexecution_transmits_given : forall ops,
+  rq_run rq_init ops = spec_run (mkSp None None) ops.
+Proof. exact reexec_from_new. Qed.
+Print Assumptions C20_reexecution_transmits_given.
+
+(* comparing header VALUES instead of the slice identity loses a request-level credential equal
+   to what the client had before: after the client's rotation the new client credential goes out *)
+Theorem C20_value_compare_refuted :
+  let ops := [CBasic (bs "u") (bs "old"); Send; RBasic (bs "u") (bs "old"); CBasic (bs "u") (bs "new"); Send] in
+  rq_run rq_init ops = [Some (basic_header (bs "u") (bs "old")); Some (basic_header (bs "u") (bs "old"))] /\
+  rqv_run (mkRqv None None None) ops = [Some (basic_header (bs "u") (bs "old")); Some (basic_header (bs "u") (bs "new"))].
+Proof. exact value_compare_refuted. Qed.
+Print Assumptions C20_value_compare_refuted.
 
 (* connectMethod.key, proxyAuth and basicAuth as regenerated from the source are the ones modelled *)
 Theorem C20_proxy_source_as_modelled :
